@@ -1304,6 +1304,16 @@ def check_estimator(case, rec):
     )
     centers, gamma, counts = out
     counts = np.asarray(counts, dtype=np.int64)
+    if arg_edges is not None:
+        # the same bins array is used again (next field / time step): given in geo units, it still is afterwards
+        require(bool(np.array_equal(arg_edges, edges)), f"vario_estimate(latlon=True, geo_scale={g}) changed the given bin edges: {arg_edges.tolist()} (were {edges.tolist()})",
+                dict(tags, kind="bin_edges_modified"))
+        out2 = lib(gs.vario_estimate, pos.copy(), field.copy(), arg_edges, latlon=True, geo_scale=g, return_counts=True, _what="vario_estimate(latlon=True), 2nd call", _tags=tags)
+        require(
+            bool(np.array_equal(np.asarray(out2[0]), np.asarray(centers))) and bool(np.array_equal(np.asarray(out2[2]), counts)),
+            f"a second estimate with the same bins array gives other bin centres / counts ({np.asarray(out2[0]).tolist()} vs {np.asarray(centers).tolist()})",
+            dict(tags, kind="bin_edges_modified"),
+        )
     cnt_o, sm_o = _brute(arc * g, field, edges)
     want_c = (edges[:-1] + edges[1:]) / 2.0
     require(
